@@ -13,14 +13,15 @@ import robust_gen as rg
 import robust_run as rr
 
 MLS = ("robust", "wire")
-HARNESSES = ()
+HARNESSES = ("robust_h",)
 LEVEL = "proof"
 THEOREMS = ["C10_invalid_disconnects_sender_only", "C10_invalid_sender_gone_others_untouched", "C10_nothing_after_corruption",
             "C10_invalid_bytes_invisible", "C10_isolation_bytes", "C10_valid_prefix", "C10_isolation", "C10_preauth_silent", "C10_incomplete_bounded",
             "C10_accept_gate", "C10_setup_assertion_holds", "C10_env_run_is_run", "C10_loader_nothing_after_corruption",
             "C10_close_cleans_up", "C10_owned_covers_reachable", "C10_close_releases_slot", "C10_close_frame",
             "C10_close_outputs_prescribed", "C10_no_error_to_departed", "C10_expiry_exact",
-            "C10_activation_failure_only_to_connected", "C10_no_activation_error_to_departed", "C10_activation_success_only_to_connected"]
+            "C10_activation_failure_only_to_connected", "C10_no_activation_error_to_departed", "C10_activation_success_only_to_connected",
+            "C10_no_watch_bounded_wakeup", "C10_no_spin"]
 
 NWORKERS = min(6, max(2, (os.cpu_count() or 4) // 2))
 
@@ -46,6 +47,19 @@ def script_line(s):
     x = c.get("extra_limits", {})
     return "script2 %d %d %d %d %d %d %s" % (rg.UID, c["max_incomplete"], c["auth_timeout"], c["max_message_size"],
                                            x.get("max_connections_per_user", 256), x.get("max_match_rules_per_connection", 512), " ".join(s["events"]))
+
+
+def watch_cases():
+    """all watch lists of length 0..2 over enabled x {R, W, RW} (plus a few of length 3) x kernel condition {idle, data, peer closed}"""
+    import itertools
+    ws = ["e%do0f%d" % (e, f) for e in (0, 1) for f in (1, 2, 3)]
+    out = []
+    for ready in (2, 3, 11):
+        out.append("watch %d" % ready)
+        out += ["watch %d %s" % (ready, a) for a in ws]
+        out += ["watch %d %s %s" % (ready, a, b) for a, b in itertools.product(ws, ws)]
+        out += ["watch %d e0o0f1 e0o0f2 e0o0f3" % ready, "watch %d e0o0f1 e1o0f2 e0o0f3" % ready, "watch %d e1o0f1 e1o0f2 e1o0f3" % ready]
+    return out
 
 
 def parse_events(tokens):
@@ -83,7 +97,8 @@ def worker(args):
                         bus = None
                     if bus is None:
                         bus = rr.Bus(exe, cfg)
-                    res = rr.run_script(bus, parse_events(s["events"]), rr.parse_groups(line), [bytes.fromhex(c) for c in s["canaries"]], s.get("blast"), tuple(s.get("noread", ())), bool(s.get("fresh")))
+                    res = rr.run_script(bus, parse_events(s["events"]), rr.parse_groups(line), [bytes.fromhex(c) for c in s["canaries"]], s.get("blast"), tuple(s.get("noread", ())), bool(s.get("fresh")), s.get("throttle"),
+                                        s["kind"].split(":")[0] in ("close", "flood", "blast", "quota", "throttle", "slots", "activation"))
                 except Exception:
                     res = {"problems": [("violation", "executor exception (bus unusable?): " + " / ".join(traceback.format_exc().strip().split("\n")[-3:])[-400:])], "observed": [], "stats": {}}
                 res["attempts"] = attempt + 1
@@ -142,8 +157,8 @@ def run(ctx):
                 if f.endswith(".json"):
                     scripts += json.load(open(os.path.join(cdir, f)))
         n_plain, n_flood, n_timed, n_blast = (1800, 16, 18, 10) if tier == "quick" else (16000, 160, 220, 80)
-        n_close, n_slots, n_act = (60, 24, 30) if tier == "quick" else (1500, 500, 400)
-        gen = rg.generate(rnd, n_plain, n_flood, n_timed, n_blast, n_close, n_slots, n_act)
+        n_close, n_slots, n_act, n_thr = (60, 24, 30, 8) if tier == "quick" else (1500, 500, 400, 100)
+        gen = rg.generate(rnd, n_plain, n_flood, n_timed, n_blast, n_close, n_slots, n_act, n_thr)
         if tier != "quick":
             big = rg.gen_quota(rnd, n=34000, cfg=rg.CFG_MAIN)      # the same with the DEFAULT max_outgoing_bytes (127 MiB)
             big["kind"] = "quota:default-limit"
@@ -176,6 +191,27 @@ def run(ctx):
     for r, d in outs:
         results.update(dict(r))
         daemons += d
+    # ---- the watch / poll-set logic of the main loop: Robust.Watch.iterate vs dbus-mainloop.c (harness/c/robust_h.c), exhaustive small cases
+    wl = watch_cases()
+    wm, _ = vlib.run_lines(info["model_robust"], wl)
+    wi, wcr = vlib.run_lines(info["robust_h"], wl, shards=min(vlib.NPROC, 16)) if info.get("robust_h") else ([], [])
+    for line, err in wcr:
+        rep.violation("main-loop harness crashed on `%s`: %s" % (line, err[-400:]), {"input": line, "stderr": err})
+    # the harness measures "woke" by the clock (a 120 ms blocking iteration that ends within 60 ms): re-run disagreeing cases once, alone
+    watch_viol = []
+    redo = [k for k, (a, b) in enumerate(zip(wm, wi)) if a != b and b != "!CRASH"]
+    if redo and info.get("robust_h"):
+        again, _ = vlib.run_lines(info["robust_h"], [wl[k] for k in redo], shards=1)
+        for k, b in zip(redo, again):
+            wi[k] = b
+    for l, a, b in zip(wl, wm, wi):
+        if a != b and b != "!CRASH":
+            ma, mb = re.match(r"woke=(\d),(\d)", a), re.match(r"woke=(\d),(\d)", b)
+            if mb and mb.group(2) == "1" and "handled=" in b and b.endswith(",0"):
+                watch_viol.append((0.5, "main loop: `%s`: a descriptor wakes a later iteration although no handler runs on it (%s; model %s): the loop spins on it" % (l, b, a),
+                                   {"cmd": l, "impl": b, "model": a}, True))
+            else:
+                watch_viol.append((1, "main loop: `%s`: dbus-mainloop.c %s, model %s" % (l, b, a), {"cmd": l, "impl": b, "model": a, "names": "correspondence robust_h/watch vs Robust.Watch.iterate"}, False))
     # ---- verdicts
     known = load_known()
     kinds, nontrivial, dist = {}, set(), {}
@@ -202,6 +238,9 @@ def run(ctx):
         stats["blast_bytes"] = stats.get("blast_bytes", 0) + st.get("blast_bytes", 0)
         stats["blast_roundtrips"] = stats.get("blast_roundtrips", 0) + st.get("blast_roundtrips", 0)
         stats["blast_lat_max"] = max(stats.get("blast_lat_max", 0.0), st.get("blast_lat_max", 0.0))
+        stats["idle_cpu_max"] = max(stats.get("idle_cpu_max", 0.0), st.get("idle_cpu_max", 0.0))
+        stats["idle_samples"] = stats.get("idle_samples", 0) + (1 if "idle_cpu_max" in st else 0)
+        stats["throttled"] = stats.get("throttled", 0) + (1 if st.get("throttled") else 0)
         if res.get("attempts", 1) > 1:
             stats["retried_timed"] += 1
         if st.get("gone", 0) or st.get("seen", 0) > 1:
@@ -215,7 +254,7 @@ def run(ctx):
                 replay["names"] = "correspondence harness/py/robust_run.py (dbus-daemon) vs Robust.Env/Robust.Bus (extracted)"
                 pending_viol.append((1, "[%s] daemon and model disagree: %s" % (fam, text), replay, False))
     # property breaches with a concrete input first (the report shows only the first few)
-    for _, text, replay, found in sorted(pending_viol, key=lambda v: v[0]):
+    for _, text, replay, found in sorted(pending_viol + watch_viol[:3], key=lambda v: v[0]):
         rep.violation(text, replay, found_input=found)
     for d in daemons:
         if (d["san"] or d["rc"] not in (0, None) or not d["alive"]) and not d.get("reported") and not any(D1_TEXT in x for x in d["san"]):
@@ -258,10 +297,12 @@ def run(ctx):
                                             "attack_bytes": attack_bytes, "timed_scripts_retried": stats["retried_timed"],
                                             "mutated_message_verdicts(validity code: count)": dict(sorted(reasons.items())),
                                             "concurrent_flood_bytes": stats.get("blast_bytes", 0), "round_trips_during_floods": stats.get("blast_roundtrips", 0),
-                                            "worst_latency_during_floods_s": round(stats.get("blast_lat_max", 0.0), 4)}),
+                                            "worst_latency_during_floods_s": round(stats.get("blast_lat_max", 0.0), 4),
+                                            "idle_cpu_samples": stats.get("idle_samples", 0), "idle_cpu_fraction_max": round(stats.get("idle_cpu_max", 0.0), 3),
+                                            "throttle_scripts_in_which_the_bus_stopped_reading": stats.get("throttled", 0)}),
         "traces_validated_against_impl": len(results), "disagreements_checked": n_viol,
         "bystander_latency_max_s": round(max([stats["lat_max"]] + lat_all), 4), "latency_bound_s": rr.LAT_BOUND,
-        "daemons": len(daemons), "daemon_exit_statuses": sorted({str(d["rc"]) for d in daemons}),
+        "main_loop_watch_cases": len(wl), "daemons": len(daemons), "daemon_exit_statuses": sorted({str(d["rc"]) for d in daemons}),
         "attack_wall_s": round(time.time() - t0, 1),
         "explanation": "PROVED (Coq, all histories/schedules, on the model): a connection whose stream is found invalid is dropped and nothing but the effects of its valid "
                        "message prefix and of its disconnection reaches the bus core or any other connection (C10_invalid_disconnects_sender_only, C10_nothing_after_corruption, "
